@@ -287,10 +287,13 @@ def _check_piece(spec, q, zero, dbl, prec, W, overflow, data, pos, rx):
         if not digits:
             # no digit positions (the only one went to the sign): nothing but E+dd is shown; by the code
             # (C08_no_digit_exponent) dd = number of divisions by ten that bring the value below 1: the
-            # count of integer digits for |x| >= 1 (" E+01" for 1, documented as GW-BASIC's output; one less
-            # is tolerated at powers of ten, where the division is inexact), 0 for |x| < 1
+            # count of integer digits for |x| >= 1 (" E+01" for 1, documented as GW-BASIC's output; off by one
+            # is tolerated within 2^-22 of a power of ten, where the inexact division decides), 0 for |x| < 1
             nint = floor_log10(q) + 1 if q >= 1 else 0
-            if expo != nint and not (q >= 1 and expo == nint - 1 and sig_digits(q) == 1):
+            eps = Fraction(1, 1 << 22)
+            near_up = q >= Fraction(10) ** nint * (1 - eps)            # within rounding of the next power of ten
+            near_down = q >= 1 and q <= Fraction(10) ** (nint - 1) * (1 + eps)
+            if expo != nint and not (near_up and expo == nint + 1) and not (near_down and expo == nint - 1):
                 raise Mismatch('field %r value %s: exponent %d, the value has %d integer digits'
                                % (spec.text, float(q), expo, nint))
             return end, 'nodigits'
